@@ -7,6 +7,7 @@ import Driver.Retry
 import Driver.Embed
 import Driver.Linearize
 import Driver.Context
+import Driver.Hist
 
 namespace Driver
 
@@ -23,6 +24,7 @@ def dispatch (dom : String) (ops : Array String) : Array String :=
   | "embed" => Embed.runCase ops
   | "linearize" => Linearize.runCase ops
   | "context" => Context.runCase ops
+  | "hist" => Hist.runCase ops
   | _ => ops.map (fun _ => "unknown-domain")
 
 end Driver
